@@ -117,7 +117,10 @@ def element(lat, prefix):
   if lat.kind == "po2":
     e = z3.Int(prefix + "_e")
     sg = z3.Int(prefix + "_s")
-    cs = [lat.emin <= e, e <= lat.emax, z3.Or(sg == 1, z3.And(lat.signed, sg == -1))]
+    # magnitudes below the library's epsilon floor (1e-7, i.e. exponents < -24) are only emitted as
+    # the smallest code 2^emin, so exponents strictly between emin and -24 are not operand values
+    cs = [lat.emin <= e, e <= lat.emax, z3.Or(e == lat.emin, e >= -24),
+          z3.Or(sg == 1, z3.And(lat.signed, sg == -1))]
     return Elem(sg, e, cs, names={prefix + "_e": e, prefix + "_s": sg})
   if lat.kind == "finite":
     v = z3.Int(prefix + "_v")
